@@ -20,19 +20,22 @@ META = {
     "level_text": "Machine-checked Coq theorems, for ALL meshes (unbounded vertex/element/attribute lists), about an executable model of "
                   "mouette/mesh/io/*.py and the save/load plumbing of mesh.py whose constants, tables and decision expressions are regenerated "
                   "from /repo on every run. PROVED (guards are visible premises): round trip parse_f(print_f m) = vocab_f m for xyz and obj "
-                  "(meshes without normals/uv_coords attributes; both edge-export switches, ignore_elements), off (faces of >=3 vertices), tet, "
+                  "(meshes without normals/uv_coords attributes; both edge-export switches, ignore_elements; for obj, since references <= 0 are "
+                  "relative, the visible guard that the indices of the mesh are natural numbers), off (faces of >=3 vertices), tet, "
                   "Medit .mesh (per arity class; hard-edge-only export), geogram_ascii (vertices, edges, faces of any arity via facet_ptr, cells "
                   "of any arity via cell_ptr, cell adjacency of tetrahedral meshes, attributes of the five types on the seven containers incl. "
                   "string values and names with any characters, which are percent-encoded; guard geo_ok: names distinct and not reserved by the "
                   "format); attribute name/type/arity and dense values (corollary; a scalar equal to the default reads back as the default); "
-                  "interoperability both ways with independent reference codecs for xyz, obj, off, tet, Medit; extension dispatch; "
+                  "interoperability both ways with independent reference codecs for xyz, obj, off, tet, Medit; OBJ RELATIVE references (a file "
+                  "whose f / l statements designate the vertex i of the n read so far by i - n loads as the mesh it denotes: "
+                  "C04_interop_obj_relative, after the repair of resolve_index in /repo); extension dispatch; "
                   "ignore_elements; kinds a format cannot express are absent (corollary); the loaded class is the one the content implies; "
                   "load(path, dim=d) with d not above the content's dimension gives the same class (dim is a lower bound, nothing is dropped). "
                   "PARTIAL: geogram_ascii interoperability (proved: an independent count-driven reader cuts mouette's file exactly into the "
                   "attribute sets / attributes written, i.e. declared counts are consistent; the converse, and a file written by geogram "
                   "itself, are compared per run with the model's parser); STL (binary32 triangle soup of triangle meshes through a reader of "
                   "the binary layout; the importer is the third-party stl_reader, compared per run). REFUTED, each a narrowly keyed known "
-                  "finding whose witness is replayed on every run: OBJ relative (negative) indices are misread; Medit sections whose count is "
+                  "finding whose witness is replayed on every run: Medit sections whose count is "
                   "on the keyword line are skipped; Medit Dimension 2 files get the reference label as z; a geogram user attribute named like "
                   "a name the format reserves (e.g. 'point') is read as geometry; STL writes a quad as two triangles instead of leaving it "
                   "out. TESTED only (kernel-checked correspondence + independent Python oracle, per run): that mouette's save/load are the "
@@ -78,7 +81,7 @@ META = {
                   "dtypes of index rows (integral floats included). NaN / inf coordinates and attribute values are not generated "
                   "(assumption). Constrained on purpose: the order of the elements of one kind (attributes and indices refer to positions), "
                   "the vertex order inside an element, bit-exact coordinates. "
-                  "OBJ relative indices and Medit inline counts / Dimension 2 ARE covered by the property "
+                  "Medit inline counts / Dimension 2 ARE covered by the property "
                   "text and are the known findings above. A scalar attribute value equal to the type default (-0.0, "
                   "0j with signed zeros) reads back as the default.",
 }
@@ -1194,8 +1197,21 @@ def variant_files(fmt, mi, rng):
             out.append(("v and f statements interleaved, trailing blanks", "\n".join(x + "  " for x in il) + "\n", want, None))
         if Fs:
             n = len(V)
-            out.append(("relative (negative) indices", "\n".join(["v " + x for x in vl] + ["f " + " ".join(str(v - n) for v in f) for f in Fs]) + "\n",
-                        dict(want, E=[]), "obj/relative-indices"))
+            # relative references (-1 = the last vertex read so far), in f and l statements, alone and in the v/vt/vn forms
+            out.append(("relative (negative) indices", "\n".join(["v " + x for x in vl] + ["l %d %d" % (a - n, b - n) for a, b in E]
+                                                                + ["f " + " ".join(str(v - n) for v in f) for f in Fs]) + "\n", want, None))
+            il, done = ["vt 0.5 0.5", "vn 0.0 0.0 1.0"], 0
+            for k, f in enumerate(Fs):
+                while done <= max(f):
+                    il.append("v " + vl[done])
+                    done += 1
+                forms = [lambda v: str(v - done), lambda v: "%d/-1" % (v - done), lambda v: "%d//-1" % (v - done), lambda v: "%d/1/-1" % (v - done),
+                         lambda v: str(v + 1)]
+                il.append("f " + " ".join(forms[(k + j) % 5](v) for j, v in enumerate(f)))
+            il += ["v " + x for x in vl[done:]]
+            il += ["l %d %d" % (a - n, b + 1) for a, b in E]
+            out.append(("relative references counted from the vertices read so far (interleaved v / f), mixed with absolute ones",
+                        "\n".join(il) + "\n", want, None))
     elif fmt == "mesh":
         sections = ["Corners", "1", "1", "RequiredVertices", "1", "1", "Ridges", "0", "Normals", "1", "0.0 0.0 1.0", "NormalAtVertices", "1", "1 1",
                     "Tangents", "0"] if V else []
@@ -1420,9 +1436,9 @@ def obj_reader_full(text):
         if w[0] == "v":
             V.append([f2b(float(x)) for x in w[1:4]])
         elif w[0] == "f":
-            F.append([int(x.split("/")[0]) - 1 for x in w[1:]])
+            F.append([(lambda k: k - 1 if k > 0 else len(V) + k)(int(x.split("/")[0])) for x in w[1:]])
         elif w[0] == "l":
-            ids = [int(x.split("/")[0]) - 1 for x in w[1:]]
+            ids = [(lambda k: k - 1 if k > 0 else len(V) + k)(int(x.split("/")[0])) for x in w[1:]]
             E += [sorted(ids[i:i + 2]) for i in range(len(ids) - 1)]
     return {"V": V, "E": E, "F": F, "C": []}
 
@@ -1964,7 +1980,7 @@ def run(ctx):
                 var_meta.append((fmt, label, want, kf))
     for fmt_, label_, text_, want_, kf_ in (
             ("obj", "witness: relative (negative) indices", "v 0.0 0.0 0.0\nv 1.0 0.0 0.0\nv 0.0 1.0 0.0\nf -3 -2 -1\n",
-             {"V": sqv[:2] + [sqv[3]], "E": [], "F": [[0, 1, 2]], "C": []}, "obj/relative-indices"),
+             {"V": sqv[:2] + [sqv[3]], "E": [], "F": [[0, 1, 2]], "C": []}, None),      # repaired in /repo: a regression case now
             ("mesh", "witness: counts on the keyword lines", "MeshVersionFormatted 2\nDimension 3\nVertices 1\n0.0 0.0 0.0 0\nEnd\n",
              {"V": [sqv[0]], "E": [], "F": [], "C": []}, "mesh/count-on-keyword-line"),
             ("mesh", "witness: two-dimensional file", "MeshVersionFormatted 2\nDimension 2\nVertices\n1\n0.0 0.0 7\nEnd\n",
